@@ -164,12 +164,30 @@ type Node struct {
 	Desc      string   `json:"desc,omitempty"`
 	// IfFeatures: if-feature statements on the node (on a uses: in its block), in written order.
 	IfFeatures []string `json:"if_features,omitempty"`
-	Body                // typedefs, groupings, children
+	// Extras: further statements of the node (on a uses: in its block) in written order - must, when, status,
+	// reference, presence, and extension statements (keyword with a prefix).
+	Extras []Stmt `json:"extras,omitempty"`
+	Body          // typedefs, groupings, children
 }
+
+// Stmt is a statement that goyang keeps without interpreting it: a constraint (must, when, presence), an
+// annotation (status, reference) or an extension statement.
+type Stmt struct {
+	Kw  string `json:"kw"`
+	Arg string `json:"arg"`
+}
+
+// IsExt: the statement is an extension statement (its keyword carries a prefix).
+func (s Stmt) IsExt() bool { return strings.Contains(s.Kw, ":") }
+
+// ExtKeyword is the extension statement that the files of m may strew over their nodes (every file that uses it
+// declares the extension itself).
+func (m *Module) ExtKeyword() string { return m.Prefix + ":note" }
 
 type Augment struct {
 	Path       string   `json:"path"`
 	IfFeatures []string `json:"if_features,omitempty"`
+	Extras     []Stmt   `json:"extras,omitempty"`
 	Body                // nodes (incl. uses, case)
 }
 
@@ -297,6 +315,40 @@ func (m *Module) usedFeatures() []string {
 	return out
 }
 
+// usesExt: some node, uses or augment of the file carries an extension statement.
+func (m *Module) usesExt() bool {
+	found := false
+	has := func(x []Stmt) {
+		for _, e := range x {
+			if e.IsExt() {
+				found = true
+			}
+		}
+	}
+	var walk func(b *Body)
+	walk = func(b *Body) {
+		for _, g := range b.Groupings {
+			walk(&g.Body)
+		}
+		for _, n := range b.Nodes {
+			has(n.Extras)
+			walk(&n.Body)
+		}
+	}
+	walk(&m.Body)
+	for _, a := range m.Augments {
+		has(a.Extras)
+		walk(&a.Body)
+	}
+	return found
+}
+
+func (p *pr) extras(x []Stmt) {
+	for _, e := range x {
+		p.line("%s %s;", e.Kw, Q(e.Arg))
+	}
+}
+
 func (m *Module) Text() string {
 	p := &pr{}
 	if m.IsSub {
@@ -323,6 +375,9 @@ func (m *Module) Text() string {
 	for _, f := range m.usedFeatures() {
 		p.line("feature %s;", f)
 	}
+	if m.usesExt() {
+		p.line("extension note { argument text; }")
+	}
 	for _, id := range m.Identities {
 		if len(id.Bases) == 0 {
 			p.line("identity %s;", id.Name)
@@ -340,6 +395,7 @@ func (m *Module) Text() string {
 		for _, f := range a.IfFeatures {
 			p.line("if-feature %s;", f)
 		}
+		p.extras(a.Extras)
 		p.body(&a.Body)
 		p.close()
 	}
@@ -454,7 +510,7 @@ func (p *pr) typ(t *TypeRef) {
 func (p *pr) node(n *Node) {
 	switch n.Kind {
 	case KUses:
-		if len(n.IfFeatures) == 0 {
+		if len(n.IfFeatures) == 0 && len(n.Extras) == 0 {
 			p.line("uses %s;", n.Name)
 			return
 		}
@@ -462,6 +518,7 @@ func (p *pr) node(n *Node) {
 		for _, f := range n.IfFeatures {
 			p.line("if-feature %s;", f)
 		}
+		p.extras(n.Extras)
 		p.close()
 		return
 	case KInput, KOutput:
@@ -475,6 +532,7 @@ func (p *pr) node(n *Node) {
 	for _, f := range n.IfFeatures {
 		p.line("if-feature %s;", f)
 	}
+	p.extras(n.Extras)
 	if n.Key != "" {
 		p.line("key %s;", Q(n.Key))
 	}
